@@ -51,6 +51,7 @@ def spellings(rate, bs, rng, all_=False):
             opts.append((rate, tuple(b), 'bs%d=-1' % i))
     opts.append((-1, tuple(bs), 'rate=-1'))
     opts.append((str(rate), tuple(bs), 'rate-str'))
+    opts.append((rate, tuple(bs), 'numpy-dims'))          # block dimensions given as narrow NumPy integers (run_case converts)
     if rate < 1:
         opts.append((-int(round(1 / rate)), tuple(bs), 'rate-negative-reciprocal'))
     if all_:
@@ -101,6 +102,13 @@ def cases(tier, seed):
             seen.add(key)
             nm.append({'id': '%s:near:rate>32:%s:%s' % ('2d' if bs[0] == 1 else '3d', r, 'x'.join(map(str, bs))), 'dim': '2d' if bs[0] == 1 else '3d', 'rate_arg': r, 'bs_arg': bs,
                        'valid': None, 'spelling': 'near-miss', 'cost': 1})
+    # deterministic family: 2D settings whose FIRST block dimension is left to be calculated (it is 1 by definition: anything else is not a 2D layout)
+    # (only settings that would resolve to something other than 1: whether -1 may stand for the 1 itself is not for this check to demand)
+    for r, bs in [(8, [-1, 16, 64]), (16, [-1, 4, 256]), (8, [-1, 64, 32]), (4, [-1, 16, 64]), (-1, [-1, 16, 256])]:
+        key = (True, str(r), tuple(bs))
+        if key not in seen:
+            seen.add(key)
+            nm.append({'id': '2d:near:first-dim-free:%s:%s' % (r, 'x'.join(map(str, bs))), 'dim': '2d', 'rate_arg': r, 'bs_arg': bs, 'valid': None, 'spelling': 'near-miss', 'cost': 1})
     n += len(nm)
     while len(nm) < n:
         is2d = rng.random() < 0.3
@@ -204,6 +212,8 @@ def run_case(case, ctx):
     out = sc.file('o.sgz')
     r_arg, b_arg = case['rate_arg'], tuple(case['bs_arg'])
     eff = effective(r_arg, b_arg)
+    if case.get('spelling') == 'numpy-dims':
+        b_arg = tuple(np.uint16(b) if b > 255 else np.uint8(b) for b in b_arg)
     valid = bool(eff and is_valid(eff[0], eff[1], is2d))
     if case.get('valid') and not valid:
         return {'harness_error': 'validity oracle disagrees with the enumerated valid set for %s' % case['id']}
